@@ -224,8 +224,45 @@ func VH_C11_program() {
 		}
 	}
 
+	if on(11) { // one Combo used from two different groups: the same method twice is refused whatever the group
+		k := vx.Choice(9)
+		combo := r.Combo("/cz")
+		hs, ids := p.list(1)
+		reg := func(hh []Handler) {
+			switch k {
+			case 0:
+				combo.Get(hh...)
+			case 1:
+				combo.Post(hh...)
+			case 2:
+				combo.Put(hh...)
+			case 3:
+				combo.Delete(hh...)
+			case 4:
+				combo.Patch(hh...)
+			case 5:
+				combo.Options(hh...)
+			case 6:
+				combo.Head(hh...)
+			case 7:
+				combo.Connect(hh...)
+			case 8:
+				combo.Trace(hh...)
+			}
+		}
+		r.Group("/ga", func() { reg(hs) })
+		p.expect(vC11Methods[k], "/ga/cz", nil, ids)
+		if k == 0 && autoHead {
+			p.expect("HEAD", "/ga/cz", nil, ids)
+		}
+		dup, _ := p.list(1)
+		refused := vPanics(func() { r.Group("/gb", func() { reg(dup) }) })
+		r.groups = r.groups[:0] // the panic left the group open
+		vx.Assert(refused, "C11: Combo refuses the same method twice, whatever group it is called in")
+	}
+
 	// ---- every (method, path) of the template, after the whole program ran
-	paths := []string{"/p1", G + "/p2", G + H + "/p3", G + H + "/p4", G + H + "/p5", G + "/c", "/p7", "/tc", "/p2", H + "/p3", G + "/p3", "/c", G + "/tc", G + "/o", G, "/o", G + "/"}
+	paths := []string{"/p1", G + "/p2", G + H + "/p3", G + H + "/p4", G + H + "/p5", G + "/c", "/p7", "/tc", "/p2", H + "/p3", G + "/p3", "/c", G + "/tc", G + "/o", G, "/o", G + "/", "/ga/cz", "/gb/cz", "/cz"}
 	allOK := true
 	for _, path := range paths {
 		for _, m := range vC11Methods {
